@@ -15,6 +15,7 @@ import (
 	"strconv"
 	"strings"
 	"sync"
+	"syscall"
 	"time"
 )
 
@@ -460,6 +461,16 @@ func runProp(p propDef, tier string, seed int64, only string) int {
 	ti := 0
 	if tier == "thorough" {
 		ti = 1
+	}
+	// two runs of the same check against the same tree share the test binary and the run directory:
+	// the second one waits for the first (replays included)
+	{
+		_, tag := altRepo()
+		os.MkdirAll(filepath.Join(verifRoot, ".build"), 0o755)
+		if lf, err := os.OpenFile(filepath.Join(verifRoot, ".build", "lock."+p.ID+tag), os.O_CREATE|os.O_RDWR, 0o644); err == nil {
+			syscall.Flock(int(lf.Fd()), syscall.LOCK_EX)
+			defer lf.Close()
+		}
 	}
 	bin, err := build(p)
 	if err != nil {
